@@ -182,6 +182,80 @@ func extractC12(c *Ctx) error {
 	}
 	c.P("Definition jail_guards : list string := [\"already-jailed\"; \"last-active\"; \"share\"].")
 
+	// Jail: under which address the jail record is read and written (the operator address parameter is
+	// shadowed by `valAddr := sdk.ValAddress(cons)`: a use before that line is the operator address),
+	// how the reset window is compared, what is recorded
+	iSh := strings.Index(js, "valAddr := sdk.ValAddress(cons)")
+	iGet, iSet := strings.Index(js, "k.jailLog.Get(ctx, valAddr)"), strings.Index(js, "k.jailLog.Set(ctx, valAddr, r)")
+	if iGet < 0 || iSet < 0 || strings.Count(js, "k.jailLog.Get(") != 1 || strings.Count(js, "k.jailLog.Set(") != 1 {
+		return fmt.Errorf("Keeper.Jail: one jailLog.Get(ctx, valAddr) and one jailLog.Set(ctx, valAddr, r) expected")
+	}
+	keyOf := func(i int) string {
+		if iSh >= 0 && i > iSh {
+			return "consensus"
+		}
+		return "operator"
+	}
+	c.P("Definition jail_log_read_key : string := %s.", CoqStr(keyOf(iGet)))
+	c.P("Definition jail_log_write_key : string := %s.", CoqStr(keyOf(iSet)))
+	c.Info("jail_log_keys", keyOf(iGet)+"/"+keyOf(iSet))
+	cmp := ""
+	switch {
+	case strings.Contains(js, "ctx.BlockTime().Sub(r.JailedAt) < threshold"):
+		cmp = "<"
+	case strings.Contains(js, "ctx.BlockTime().Sub(r.JailedAt) <= threshold"):
+		cmp = "<="
+	default:
+		return fmt.Errorf("Keeper.Jail: reset-window test `ctx.BlockTime().Sub(r.JailedAt) < threshold` not recognised")
+	}
+	c.P("Definition reset_window_cmp : string := %s. (* escalate iff now - jailedAt CMP threshold *)", CoqStr(cmp))
+	if !strings.Contains(js, "threshold := calculateJailSentenceResetThreshold(r.Duration)") ||
+		!strings.Contains(js, "sentence = deriveJailSentence(r.Duration)") || !strings.Contains(js, "sentence = deriveJailSentence(time.Duration(0))") {
+		return fmt.Errorf("Keeper.Jail: threshold / escalate / reset statements not recognised")
+	}
+	// the record that is written: the last composite literal assigned to r before jailLog.Set
+	recAt, recDur := "", ""
+	ast.Inspect(jf.Body, func(n ast.Node) bool {
+		cl, ok := n.(*ast.CompositeLit)
+		if !ok || !strings.HasSuffix(c.Src(cl.Type), "JailRecord") || int(cl.Pos()-jf.Body.Pos()) > iSet {
+			return true
+		}
+		for _, e := range cl.Elts {
+			if kv, ok := e.(*ast.KeyValueExpr); ok {
+				switch c.Src(kv.Key) {
+				case "JailedAt":
+					recAt = c.Src(kv.Value)
+				case "Duration":
+					recDur = c.Src(kv.Value)
+				}
+			}
+		}
+		return true
+	})
+	c.P("Definition jail_record_written : string * string := (%s, %s). (* Duration, JailedAt *)", CoqStr(recDur), CoqStr(recAt))
+	iJT, iJU := strings.Index(js, "jailTime = ctx.BlockTime().Add(sentence)"), strings.Index(js, "k.slashing.JailUntil(ctx, cons, jailTime)")
+	c.P("Definition jailed_until_is_block_time_plus_sentence : bool := %v.", iJT >= 0 && iJT < iJU)
+
+	// JailInactiveValidators: a failing Jail is collected (g.Add) and the loop goes on
+	kaf, err := c.Parse("x/valset/keeper/keep_alive.go")
+	if err != nil {
+		return err
+	}
+	jiv := FindFunc(kaf, "Keeper", "JailInactiveValidators")
+	if jiv == nil {
+		return fmt.Errorf("JailInactiveValidators not found")
+	}
+	collected := false
+	for _, ce := range Calls(jiv.Body, "Add") {
+		if len(ce.Args) == 1 && c.Src(ce.Fun) == "g.Add" && len(Calls(ce.Args[0], "Jail")) == 1 {
+			collected = true
+		}
+	}
+	if n := len(Calls(jiv.Body, "Jail")); n != 1 {
+		return fmt.Errorf("JailInactiveValidators: exactly one Jail call expected, found %d", n)
+	}
+	c.P("Definition sweep_collects_jail_errors : bool := %v.", collected)
+
 	// module.go: the liveness check condition
 	mf, err := c.Parse("x/valset/module.go")
 	if err != nil {
